@@ -400,6 +400,49 @@ example : entry BS.Gen.fmtHtmlRegistry BS.Gen.fmtXmlRegistry true (.name (some N
 example : entry BS.Gen.fmtHtmlRegistry BS.Gen.fmtXmlRegistry true (.fn .xml) builtin (.pretty 0) none sample
     = .ok (ofS "<p a=\"\" b=\"&amp;\">\n <br/>\n x&amp;y\n <script>\n  1&amp;2\n </script>\n <!--&-->\n</p>\n") := by decide +kernel
 
+/-! ## the flavour is that of the element's current position; earlier output calls leave no trace -/
+
+/-- `_is_xml`: the flavour fixed at construction of the nearest element on the way to the root (the element itself
+    included) that has one; if none has, the root's `is_xml` attribute (`False` when the root is not a `BeautifulSoup`). -/
+theorem flavour_rule (chain : List (Option Bool)) (rootAttr : Bool) :
+    isXmlOf chain rootAttr = ((chain.filterMap id).head?).getD rootAttr := isXmlOf_eq chain rootAttr
+
+example : isXmlOf [none, none, some true, some false] false = true ∧ isXmlOf [none, none] true = true ∧
+    isXmlOf [some false, some true] true = false ∧ isXmlOf [none] false = false := by decide
+
+/-- Output calls do not change the documents: after any session the documents are those produced by the edits alone. -/
+theorem output_calls_leave_no_trace (i : Subst → PStr → PStr) (docs : List Doc) (ops : List HOp) :
+    (runSession BS.Gen.fmtHtmlRegistry BS.Gen.fmtXmlRegistry i docs ops).1
+      = (runSession BS.Gen.fmtHtmlRegistry BS.Gen.fmtXmlRegistry i docs (ops.filter HOp.isEdit)).1 :=
+  runSession_docs _ _ i ops docs
+
+/-- Rendering depends only on the current trees and the configuration, not on what was rendered before: an output call
+    at the end of any session returns what the same call returns on the documents produced by the session's edits alone —
+    with the flavour (formatter class and registry for names and bare functions) found from the element's position in
+    those documents. -/
+theorem render_depends_on_current_tree_only (i : Subst → PStr → PStr) (docs : List Doc) (ops : List HOp) (d : Nat)
+    (p : List Nat) (a : FmtArg) (m : Mode) :
+    (runSession BS.Gen.fmtHtmlRegistry BS.Gen.fmtXmlRegistry i docs (ops ++ [.render d p a m])).2.getLast?
+      = some (match ((runSession BS.Gen.fmtHtmlRegistry BS.Gen.fmtXmlRegistry i docs (ops.filter HOp.isEdit)).1)[d]? with
+              | some doc => doc.renderAt BS.Gen.fmtHtmlRegistry BS.Gen.fmtXmlRegistry p a i m
+              | none => .badReceiver) := by
+  rw [runSession_last, runSession_docs]; rfl
+
+/-- a hand-made `<script>` with the text `1&2` (no flavour of its own) -/
+def handScript : XNode := .tag none SCRIPT [] [] false false [.str none .text [49, 38, 50]]
+
+/-- under an HTML soup its text is verbatim with "minimal"; moved under an XML-flavoured root (`Tag("root", is_xml=True)`),
+    and rendered from the script element itself, it is substituted — whatever was rendered while it sat in the HTML tree -/
+example :
+    let html : Doc := ⟨.tag (some false) [100] [] [] false false [handScript], false⟩
+    let xml : Doc := ⟨.tag (some true) [114] [] [] false false [handScript], false⟩
+    let arg := FmtArg.name (some N_minimal)
+    (runSession BS.Gen.fmtHtmlRegistry BS.Gen.fmtXmlRegistry builtin [html]
+        [.render 0 [0] arg .decode, .edit (fun _ => [xml]), .render 0 [0] arg .decode]).2
+      = [.ok (ofS "<script>1&2</script>"), .ok (ofS "<script>1&amp;2</script>")] ∧
+    (runSession BS.Gen.fmtHtmlRegistry BS.Gen.fmtXmlRegistry builtin [html]
+        [.edit (fun _ => [xml]), .render 0 [0] arg .decode]).2 = [.ok (ofS "<script>1&amp;2</script>")] := by decide +kernel
+
 /-! ## determinism -/
 
 /-- Attributes come out in key order whatever the insertion order (keys of a dict are distinct): same output, plain and
